@@ -34,8 +34,26 @@
 //!   53-bit numbers, not lattice values; every fed number is an integer multiple of 2^-43, so the class is
 //!   decided in i128 on exactly the numbers handed to the library.  (The lattice families reach internal
 //!   tangency only with radius differences of lattice size, i.e. >= 1.)
+//! * NEARLY NORMALISED lines: lines handed to the library through each of its two public constructors
+//!   (`Line::new(a, b, c)` from coefficients, `Line::between(u, v)` from two points; the type has no other —
+//!   `Default` is the degenerate 0 = 0 and the fields are public) whose RAW normal has length 1 + k * 2^-s for
+//!   small integers k and s around 30, i.e. almost but not exactly a unit vector: the raw normal is
+//!   (p, q) * t / 2^s for a Pythagorean direction (p, q, h) and the integers t next to 2^s / h, so its length
+//!   h * t / 2^s is known exactly, every fed number is a dyadic rational that is verified to be an exact f64, and
+//!   the line is exactly p (x - x1) + q (y - y1) = 0.  Such a line is crossed with circles whose centre is up to
+//!   ~1e3 away from it: at exact tangency (radius h * rho, centre = tangent point + rho * (p, q)), with the
+//!   radius changed by +-delta for every delta of the extreme-ratio list and by +-r/64, +-r/4; with points on,
+//!   next to and off the line for `contains`; with the perpendicular through a defining point and with a
+//!   parallel copy for `intersect_ll` / `parallel`.  (The lattice families normalise raw normals of length 1,
+//!   sqrt(2), 2, … — never one that is within 1e-9 of 1 without being 1.)
+//! * ITERATOR PROTOCOL: every result of `intersect_cl` / `intersect_cc` that any family above judges is also
+//!   consumed through its `IntoIterator` impl in every std way (see protocol.rs), and the points handed out are
+//!   compared with the points the enum variant carries.
 //!
 //! Nothing here is sampled: all centres x radii x ordered point pairs of the stated lattice are visited.
+
+#[macro_use]
+mod protocol;
 
 use rayon::prelude::*;
 use rlib_geometry::circle::{Circle, PointPosition};
@@ -215,6 +233,31 @@ enum C {
     EqObsTouchInside,
     EqObsIntersect,
     EqSkippedReach,
+    IterResults,
+    IterResultsAgreed,
+    IterNoPoint,
+    IterOnePoint,
+    IterTwoPoints,
+    IterWaysForward,
+    IterWaysBack,
+    IterWaysLen,
+    IterWaysFused,
+    IterWaysClone,
+    IterWaysByRef,
+    NuLines,
+    NuLinesInBand,
+    NuClTouch,
+    NuClTouchFarInBand,
+    NuClIntersect,
+    NuClNone,
+    NuObsTouch,
+    NuObsIntersect,
+    NuContainsOn,
+    NuContainsOff,
+    NuLlPoint,
+    NuLlParallel,
+    NuSkippedReach,
+    NuNotRepresentable,
     N,
 }
 
@@ -279,6 +322,31 @@ const CNAMES: [&str; C::N as usize] = [
     "eq_cc_observed_touch_inside",
     "eq_cc_observed_intersect",
     "eq_cc_skipped_a_circle_reaches_beyond_1e3",
+    "iter_results_put_through_the_iterator_protocol",
+    "iter_results_for_which_every_way_agreed",
+    "iter_results_without_a_point",
+    "iter_results_with_one_point",
+    "iter_results_with_two_points",
+    "iter_ways_run_iterator",
+    "iter_ways_run_double_ended",
+    "iter_ways_run_exact_size",
+    "iter_ways_run_fused",
+    "iter_ways_run_clone",
+    "iter_ways_run_by_reference",
+    "nu_lines_built",
+    "nu_lines_built_with_raw_normal_length_within_1e-9_of_1",
+    "nu_cl_exact_touch",
+    "nu_cl_exact_touch_at_distance_500_or_more_raw_normal_length_within_1e-9_of_1",
+    "nu_cl_exact_intersect",
+    "nu_cl_exact_none",
+    "nu_cl_observed_touch",
+    "nu_cl_observed_intersect",
+    "nu_contains_on",
+    "nu_contains_off",
+    "nu_ll_exact_point",
+    "nu_ll_exact_parallel",
+    "nu_skipped_reaching_beyond_1e3",
+    "nu_not_formed_a_fed_number_is_not_an_exact_f64",
 ];
 
 #[derive(Clone)]
@@ -313,6 +381,15 @@ struct Acc {
     eq_min_apart: f64,
     /// nearly-equal-radii family: failing calls per (check, g)
     eq_fails: BTreeMap<String, u64>,
+    /// nearly-normalised-lines family: largest |coordinate| on any fed circle or defining point, smallest measured
+    /// distance of a "next to the line" point from the line, largest |Line::dist - exact distance| seen (recorded,
+    /// not judged), and over accepted answers the largest distance of a returned point from circle or line
+    nu_reach: f64,
+    nu_near_gap: f64,
+    nu_max_dist_err: f64,
+    nu_max_off: f64,
+    /// nearly-normalised-lines family: failing calls per (check, constructor, normal length)
+    nu_fails: BTreeMap<String, u64>,
     fails: BTreeMap<&'static str, (Key, Violation)>,
     fail_counts: BTreeMap<&'static str, u64>,
     notes: BTreeMap<&'static str, (Key, Value)>,
@@ -342,6 +419,11 @@ impl Acc {
             eq_max_off: 0.0,
             eq_min_apart: f64::INFINITY,
             eq_fails: BTreeMap::new(),
+            nu_reach: 0.0,
+            nu_near_gap: f64::INFINITY,
+            nu_max_dist_err: 0.0,
+            nu_max_off: 0.0,
+            nu_fails: BTreeMap::new(),
             fails: BTreeMap::new(),
             fail_counts: BTreeMap::new(),
             notes: BTreeMap::new(),
@@ -398,6 +480,13 @@ impl Acc {
         self.eq_min_apart = self.eq_min_apart.min(o.eq_min_apart);
         for (f, n) in o.eq_fails {
             *self.eq_fails.entry(f).or_insert(0) += n;
+        }
+        self.nu_reach = self.nu_reach.max(o.nu_reach);
+        self.nu_near_gap = self.nu_near_gap.min(o.nu_near_gap);
+        self.nu_max_dist_err = self.nu_max_dist_err.max(o.nu_max_dist_err);
+        self.nu_max_off = self.nu_max_off.max(o.nu_max_off);
+        for (f, n) in o.nu_fails {
+            *self.nu_fails.entry(f).or_insert(0) += n;
         }
         for (f, n) in o.fail_counts {
             *self.fail_counts.entry(f).or_insert(0) += n;
@@ -469,6 +558,93 @@ fn ip(p: IP) -> String {
 }
 
 // ------------------------------------------------------------------------------------------------
+// the iterator protocol of the two result enums (see protocol.rs)
+// ------------------------------------------------------------------------------------------------
+
+/// what a judged case needs in order to be reported, and how deep its results go through the iterator protocol
+trait CaseId {
+    fn sig(&self) -> String;
+    fn replay(&self, fam: &str) -> Value;
+    /// true: every way of consuming; false: only the methods an iterator type realistically implements itself
+    /// (next, size_hint, count, last, nth, fold, next_back, nth_back, rfold, mixed-end pulling, len) unless the
+    /// result has exactly one point — a one-point result always gets every way
+    fn full_protocol(&self) -> bool;
+}
+
+macro_rules! case_id {
+    ($t:ty, $full:expr) => {
+        impl CaseId for $t {
+            fn sig(&self) -> String {
+                <$t>::sig(self)
+            }
+            fn replay(&self, fam: &str) -> Value {
+                <$t>::replay(self, fam)
+            }
+            fn full_protocol(&self) -> bool {
+                let f: fn(&$t) -> bool = $full;
+                f(self)
+            }
+        }
+    };
+}
+// lattice 1, the near-boundary companions and the small special families: every way on every result; the
+// similarity images of lattice 1 and the (large) nearly-normalised-lines family: every way on one-point results
+case_id!(ClCase, |k| k.tf.is_id() || k.pert != 0);
+case_id!(CcCase, |k| k.tf.is_id() || k.pert != 0);
+case_id!(RatioCase, |_| true);
+case_id!(EqCase, |_| true);
+case_id!(NuCase, |_| false);
+
+fn iter_verdict(acc: &mut Acc, key: Key, k: &dyn CaseId, fam: &'static str, call: &str, n: usize, r: Result<Result<protocol::Tally, protocol::Fail>, String>, shown: &dyn Fn() -> String) {
+    acc.inc(C::IterResults);
+    acc.inc([C::IterNoPoint, C::IterOnePoint, C::IterTwoPoints][n]);
+    let f = match r {
+        Ok(Ok(t)) => {
+            acc.inc(C::IterResultsAgreed);
+            for (c, w) in [(C::IterWaysForward, t.forward), (C::IterWaysBack, t.back), (C::IterWaysLen, t.len), (C::IterWaysFused, t.fused), (C::IterWaysClone, t.cloned), (C::IterWaysByRef, t.by_ref)] {
+                acc.c[c as usize] += w;
+            }
+            return;
+        }
+        Ok(Err(f)) => f,
+        Err(p) => protocol::Fail { way: "panic", detail: format!("a method of the iterator panicked: {p}") },
+    };
+    acc.fail(fam, key, || {
+        Violation::new(
+            format!("{fam}:{};way={}", k.sig(), f.way),
+            format!("{call} returned {} (case {}); its points taken from `into_iter()` by way of `{}`: {} — what a result reports through its iterator must be the points of the returned variant", shown(), k.sig(), f.way, f.detail),
+            k.replay(fam),
+        )
+    });
+}
+
+/// Every std way of consuming the `IntoIterator` of a circle–line result against the points of its variant.
+fn iter_cl(acc: &mut Acc, key: Key, k: &dyn CaseId, v: &CircleLineIntersection) {
+    let z = Point::new(0.0, 0.0);
+    let (pts, n) = match v {
+        CircleLineIntersection::None => ([z, z], 0),
+        CircleLineIntersection::Touch(p) => ([*p, z], 1),
+        CircleLineIntersection::Intersect(p, q) => ([*p, *q], 2),
+    };
+    // the type is not Clone: an equal value is put together from the public variants for every way
+    let copy = || match v {
+        CircleLineIntersection::None => CircleLineIntersection::None,
+        CircleLineIntersection::Touch(p) => CircleLineIntersection::Touch(*p),
+        CircleLineIntersection::Intersect(p, q) => CircleLineIntersection::Intersect(*p, *q),
+    };
+    let r = catch(|| iter_protocol!(copy, v, &pts[..n], n == 1 || k.full_protocol()));
+    iter_verdict(acc, key, k, "cl_iter", "intersect_cl", n, r, &|| cl_val_string(v));
+}
+
+/// The same for a circle–circle result (`which` names the argument order of the call).
+fn iter_cc(acc: &mut Acc, key: Key, k: &dyn CaseId, which: &str, v: &CircleIntersection) {
+    let pts = cc_points(v);
+    let copy = || *v;
+    let r = catch(|| iter_protocol!(copy, v, &pts[..], pts.len() == 1 || k.full_protocol()));
+    iter_verdict(acc, key, k, "cc_iter", &format!("intersect_cc{which}"), pts.len(), r, &|| cc_obs_string(&Ok(*v)));
+}
+
+// ------------------------------------------------------------------------------------------------
 // circle–line
 // ------------------------------------------------------------------------------------------------
 
@@ -500,12 +676,18 @@ impl ClCase {
     }
 }
 
+fn cl_val_string(v: &CircleLineIntersection) -> String {
+    match v {
+        CircleLineIntersection::None => "None".into(),
+        CircleLineIntersection::Touch(p) => format!("Touch{}", ps(p)),
+        CircleLineIntersection::Intersect(p, q) => format!("Intersect{}{}", ps(p), ps(q)),
+    }
+}
+
 fn cl_obs_string(r: &Result<CircleLineIntersection, String>) -> String {
     match r {
         Err(e) => format!("panic: {e}"),
-        Ok(CircleLineIntersection::None) => "None".into(),
-        Ok(CircleLineIntersection::Touch(p)) => format!("Touch{}", ps(p)),
-        Ok(CircleLineIntersection::Intersect(p, q)) => format!("Intersect{}{}", ps(p), ps(q)),
+        Ok(v) => cl_val_string(v),
     }
 }
 
@@ -575,6 +757,7 @@ fn check_cl(acc: &mut Acc, key: Key, k: &ClCase, fc: &Point, fp1: &Point, fp2: &
         ClKind::Intersect => acc.inc(C::ObsClIntersect),
         ClKind::None => {}
     }
+    iter_cl(acc, key, k, res.as_ref().unwrap());
     if obs_kind != exact {
         let s = cl_obs_string(&res);
         acc.fail("cl_kind", key, || {
@@ -691,6 +874,7 @@ fn check_cl_near(acc: &mut Acc, key: Key, k: &ClCase, fc: &Point, fp1: &Point, f
         }
         Ok(v) => v,
     };
+    iter_cl(acc, key, k, v);
     let (obs_kind, pts) = match v {
         CircleLineIntersection::None => (ClKind::None, vec![]),
         CircleLineIntersection::Touch(p) => (ClKind::Touch, vec![*p]),
@@ -872,6 +1056,7 @@ fn check_cc(acc: &mut Acc, key: Key, k: &CcCase, fa: &Point, fb: &Point) -> CcKi
             Ok(v) => *v,
         };
         oks.push(v);
+        iter_cc(acc, key, k, which, &v);
         let ok = cc_kind_of(&v);
         if which == "(a,b)" {
             match ok {
@@ -999,6 +1184,7 @@ fn check_cc_near(acc: &mut Acc, key: Key, k: &CcCase, fa: &Point, fb: &Point) {
             }
             Ok(v) => v,
         };
+        iter_cc(acc, key, k, which, v);
         if cc_kind_of(v) != exact {
             let s = cc_obs_string(res);
             acc.fail("cc_near_kind", key, || Violation::new(format!("cc_near_kind:{}", k.sig()), format!("intersect_cc{which} kind near tangency: {}: exact class {:?}, library returned {s}", what(), exact), k.replay("cc_near_kind")));
@@ -1124,6 +1310,7 @@ fn check_cc_ratio(acc: &mut Acc, key: Key, k: &RatioCase) {
             }
             Ok(v) => v,
         };
+        iter_cc(acc, key, k, which, v);
         if which == "(a,b)" {
             match cc_kind_of(v) {
                 CcKind::Intersect => acc.inc(C::RatioObsIntersect),
@@ -1397,6 +1584,7 @@ fn check_cc_eq(acc: &mut Acc, key: Key, k: &EqCase) {
             }
             Ok(v) => v,
         };
+        iter_cc(acc, key, k, which, v);
         if which == "(a,b)" {
             match cc_kind_of(v) {
                 CcKind::Intersect => acc.inc(C::EqObsIntersect),
@@ -1766,6 +1954,423 @@ fn check_contains(acc: &mut Acc, key: Key, k: &ConCase, fl: &Line, fq: &Point) {
 }
 
 // ------------------------------------------------------------------------------------------------
+// nearly normalised lines: raw normal of length 1 + k * 2^-s, through both public constructors
+// ------------------------------------------------------------------------------------------------
+
+/// n / 2^e as the f64 handed to the library, or None if it is not exactly representable
+fn dyadic(n: i128, e: u32) -> Option<f64> {
+    let f = n as f64;
+    (n.unsigned_abs() < 1u128 << 100 && f as i128 == n && e < 64).then(|| f / (1u64 << e) as f64)
+}
+
+#[derive(Clone, Copy, PartialEq, Debug)]
+enum NuCtor {
+    /// `Line::new(a, b, c)` with (a, b) = (p, q) * t / 2^s and c = -(a x1 + b y1)
+    New,
+    /// `Line::between(u, v)` with v - u = (q, -p) * t / 2^s, so that the raw normal (u.y - v.y, v.x - u.x) is (p, q) * t / 2^s
+    Between,
+}
+
+/// The line p (x - x1) + q (y - y1) = 0 for a Pythagorean direction `dir` = (p, q, h), handed to the library
+/// with the raw normal (p, q) * t / 2^s of length h * t / 2^s = 1 + k / 2^s; `flip` negates the coefficients /
+/// swaps the two defining points.
+#[derive(Clone, Copy)]
+struct NuLine {
+    dir: (i64, i64, i64),
+    s: u32,
+    t: i64,
+    ctor: NuCtor,
+    flip: bool,
+}
+
+impl NuLine {
+    /// k of "length = 1 + k * 2^-s"
+    fn k(&self) -> i64 {
+        self.dir.2 * self.t - (1i64 << self.s)
+    }
+    /// the raw normal's length minus one (exact: k and 2^s are small integers)
+    fn excess(&self) -> f64 {
+        self.k() as f64 / (1u64 << self.s) as f64
+    }
+    fn in_band(&self) -> bool {
+        self.excess().abs() < 1e-9
+    }
+    fn len_text(&self) -> String {
+        format!("1{:+}*2^-{}", self.k(), self.s)
+    }
+    fn ctor_text(&self) -> &'static str {
+        match (self.ctor, self.flip) {
+            (NuCtor::New, false) => "new",
+            (NuCtor::New, true) => "new-",
+            (NuCtor::Between, false) => "between",
+            (NuCtor::Between, true) => "between<",
+        }
+    }
+    /// the numbers handed to the constructor for the line through `at`/4 — ([a, b, c] or [ux, uy, vx, vy]) —, or None
+    /// if one of them is not an exact f64
+    fn fed(&self, at: IP) -> Option<Vec<f64>> {
+        let (p, q, _) = self.dir;
+        let (a, b) = ((p * self.t) as i128, (q * self.t) as i128);
+        let (x, y) = (at.0 as i128, at.1 as i128);
+        let sg = if self.flip { -1 } else { 1 };
+        match self.ctor {
+            NuCtor::New => Some(vec![dyadic(sg * a, self.s)?, dyadic(sg * b, self.s)?, dyadic(-sg * (a * x + b * y), self.s + 2)?]),
+            NuCtor::Between => {
+                let one = 1i128 << self.s;
+                let u = [dyadic(x, 2)?, dyadic(y, 2)?];
+                let v = [dyadic(x * one + 4 * b, self.s + 2)?, dyadic(y * one - 4 * a, self.s + 2)?];
+                Some(if self.flip { vec![v[0], v[1], u[0], u[1]] } else { vec![u[0], u[1], v[0], v[1]] })
+            }
+        }
+    }
+    /// the library's line through `at`/4 (None: not representable; Err: the constructor panicked)
+    fn build(&self, at: IP) -> Option<Result<Line, String>> {
+        let f = self.fed(at)?;
+        Some(match self.ctor {
+            NuCtor::New => catch(|| Line::new(f[0], f[1], f[2])),
+            NuCtor::Between => catch(|| Line::between(&Point::new(f[0], f[1]), &Point::new(f[2], f[3]))),
+        })
+    }
+}
+
+/// A nearly normalised line and a circle of radius h * rho + dr whose centre `c4`/4 is exactly h * rho away
+/// from it: the line passes through the tangent point T = centre + side * rho * (p, q) and is handed over
+/// through the point T + tau * (q, -p).  dr = 0 is the exact tangency; its sign decides the class otherwise.
+struct NuCase {
+    line: NuLine,
+    c4: IP,
+    rho: i64,
+    side: i64,
+    tau: i64,
+    dr: f64,
+}
+
+impl NuCase {
+    fn r(&self) -> i64 {
+        self.line.dir.2 * self.rho
+    }
+    /// the tangent point and the point the line is handed over through, in quarters
+    fn t4(&self) -> IP {
+        let (p, q, _) = self.line.dir;
+        (self.c4.0 + 4 * self.side * self.rho * p, self.c4.1 + 4 * self.side * self.rho * q)
+    }
+    fn at4(&self) -> IP {
+        let ((p, q, _), t) = (self.line.dir, self.t4());
+        (t.0 + 4 * self.tau * q, t.1 - 4 * self.tau * p)
+    }
+    fn well_formed(&self) -> bool {
+        let (p, q, h) = self.line.dir;
+        let l = &self.line;
+        h > 0
+            && h <= 64
+            && p * p + q * q == h * h
+            && (8..=40).contains(&l.s)
+            && l.t > 0
+            && l.t < 1i64 << 41
+            && l.k() != 0
+            && l.k().abs() <= 4 * h
+            && (1..=1000).contains(&self.rho)
+            && self.side.abs() == 1
+            && self.tau.abs() <= 1000
+            && self.c4.0.abs() <= 4000
+            && self.c4.1.abs() <= 4000
+            && (self.dr == 0.0 || (self.dr.abs() >= RATIO_FLOOR && self.dr.abs() <= self.r() as f64 / 2.0))
+    }
+    fn sig(&self) -> String {
+        let (p, q, h) = self.line.dir;
+        let dir = if h == 1 { format!("{p},{q}") } else { format!("{p}/{h},{q}/{h}") };
+        let dr = if self.dr == 0.0 { "0".to_string() } else { format!("{:+e}", self.dr) };
+        format!("ctor={};n={dir};len={};c=({:?},{:?});r={};side={:+};tau={};dr={dr}", self.line.ctor_text(), self.line.len_text(), self.c4.0 as f64 / 4.0, self.c4.1 as f64 / 4.0, self.r(), self.side, self.tau)
+    }
+    fn replay(&self, fam: &str) -> Value {
+        let l = &self.line;
+        json!({"case": "nu", "family": fam, "dir": [l.dir.0, l.dir.1, l.dir.2], "s": l.s, "t": l.t, "ctor": if l.ctor == NuCtor::New { "new" } else { "between" }, "flip": l.flip,
+               "centre_quarters": [self.c4.0, self.c4.1], "rho": self.rho, "side": self.side, "tau": self.tau, "radius_change": self.dr})
+    }
+    fn from_json(v: &Value) -> Option<NuCase> {
+        let g = |a: &Value, i: usize| a[i].as_i64();
+        let ctor = match v["ctor"].as_str()? {
+            "new" => NuCtor::New,
+            "between" => NuCtor::Between,
+            _ => return None,
+        };
+        let k = NuCase {
+            line: NuLine { dir: (g(&v["dir"], 0)?, g(&v["dir"], 1)?, g(&v["dir"], 2)?), s: u32::try_from(v["s"].as_u64()?).ok()?, t: v["t"].as_i64()?, ctor, flip: v["flip"].as_bool()? },
+            c4: (g(&v["centre_quarters"], 0)?, g(&v["centre_quarters"], 1)?),
+            rho: v["rho"].as_i64()?,
+            side: v["side"].as_i64()?,
+            tau: v["tau"].as_i64()?,
+            dr: v["radius_change"].as_f64()?,
+        };
+        k.well_formed().then_some(k)
+    }
+}
+
+/// One case of the nearly-normalised-lines family.  Demanded of `intersect_cl`: the kind (Touch at the exact
+/// tangency, Intersect / None by the sign of the radius change), every returned point on the circle and on the
+/// EXACT line within 1e-7, the exact tangent point at the tangency, two returned points distinct.  At dr = 0 the
+/// line itself is examined too: `contains` of points on it (true), 1e-8 … 1e-5 next to it and h off it (false),
+/// `intersect_ll` / `parallel` with the perpendicular through the hand-over point (that point, both argument
+/// orders) and with a parallel copy built the same way one normal vector further (parallel, no point).
+fn check_nu(acc: &mut Acc, key: Key, k: &NuCase) {
+    assert!(k.well_formed(), "check_nu needs a case of the family's shape");
+    let (p, q, h) = k.line.dir;
+    let r = k.r();
+    let (t4, at) = (k.t4(), k.at4());
+    let rp = r as f64 + k.dr;
+    let dr = rp - r as f64; // exact: |dr| <= r / 2
+    // domain: all points of the circle and the defining points of the line within |coordinate| <= 1e3
+    // (the second defining point is ~1 from the hand-over point, those of the two auxiliary lines at most 3 h)
+    let reach = (k.c4.0.abs().max(k.c4.1.abs()) as f64 / 4.0 + rp).max(at.0.abs().max(at.1.abs()) as f64 / 4.0 + (3 * h + 2) as f64);
+    if reach > COORD_LIMIT {
+        acc.inc(C::SkippedOutOfDomain);
+        acc.inc(C::NuSkippedReach);
+        return;
+    }
+    let line = match k.line.build(at) {
+        None => {
+            acc.inc(C::NuNotRepresentable);
+            return;
+        }
+        Some(Err(e)) => {
+            acc.inc(C::Evals);
+            acc.fail("nu_line_panic", key, || Violation::new(format!("nu_line_panic:{}", k.sig()), format!("the Line constructor panicked on {:?}: {e}", k.line.fed(at)), k.replay("nu_line_panic")));
+            return;
+        }
+        Some(Ok(l)) => l,
+    };
+    acc.inc(C::Evals);
+    acc.inc(C::NuLines);
+    if k.line.in_band() {
+        acc.inc(C::NuLinesInBand);
+    }
+    acc.nu_reach = acc.nu_reach.max(reach);
+
+    // exact class from the integers: the centre's distance from the line is |p dx + q dy| / h
+    let cross4 = (p * (k.c4.0 - at.0) + q * (k.c4.1 - at.1)) as i128;
+    assert!(cross4.abs() == 4 * (h * r) as i128, "nearly-normalised family: the centre is not exactly r away from the line");
+    let exact = if dr == 0.0 {
+        ClKind::Touch
+    } else if dr > 0.0 {
+        ClKind::Intersect
+    } else {
+        ClKind::None
+    };
+    match exact {
+        ClKind::Touch => {
+            acc.inc(C::NuClTouch);
+            if k.line.in_band() && r >= 500 {
+                acc.inc(C::NuClTouchFarInBand);
+            }
+        }
+        ClKind::Intersect => acc.inc(C::NuClIntersect),
+        ClKind::None => acc.inc(C::NuClNone),
+    }
+    if exact != ClKind::None {
+        acc.inc(C::Nontrivial);
+    }
+    let fc = Point::new(k.c4.0 as f64 / 4.0, k.c4.1 as f64 / 4.0);
+    let fat = Point::new(at.0 as f64 / 4.0, at.1 as f64 / 4.0);
+    let ft = Point::new(t4.0 as f64 / 4.0, t4.1 as f64 / 4.0);
+    // distance from the EXACT line (never the library's coefficients)
+    let off_exact = |x: &Point| ((p as f64 * (x.x - fat.x) + q as f64 * (x.y - fat.y)) / h as f64).abs();
+    let what = || {
+        format!(
+            "the line {p} (x - {:?}) + {q} (y - {:?}) = 0 handed over as {} with a raw normal of length {} = 1{:+e} (exact), and the circle centre {} r={rp:?}, whose centre is exactly {r} from the line (radius change {:+e}; library tolerance 1e-9)",
+            fat.x, fat.y,
+            match k.line.ctor { NuCtor::New => format!("Line::new{:?}", k.line.fed(at).unwrap_or_default()), NuCtor::Between => format!("Line::between{:?}", k.line.fed(at).unwrap_or_default()) },
+            k.line.len_text(), k.line.excess(), ps(&fc), dr
+        )
+    };
+    let bucket = |check: &str| format!("{check} ctor={} len={}", k.line.ctor_text(), k.line.len_text());
+
+    let circle = Circle::new(fc, rp);
+    let res = catch(|| util::intersect_cl(&circle, &line));
+    acc.inc(C::Evals);
+    match &res {
+        Err(_) => {
+            let s = cl_obs_string(&res);
+            *acc.nu_fails.entry(bucket("panic")).or_insert(0) += 1;
+            acc.fail("nu_cl_panic", key, || Violation::new(format!("nu_cl_panic:{}", k.sig()), format!("intersect_cl panicked on a nearly normalised line: {}: {s}", what()), k.replay("nu_cl_panic")));
+        }
+        Ok(v) => {
+            iter_cl(acc, key, k, v);
+            let (obs_kind, pts) = match v {
+                CircleLineIntersection::None => (ClKind::None, vec![]),
+                CircleLineIntersection::Touch(a) => (ClKind::Touch, vec![*a]),
+                CircleLineIntersection::Intersect(a, b) => (ClKind::Intersect, vec![*a, *b]),
+            };
+            match obs_kind {
+                ClKind::Touch => acc.inc(C::NuObsTouch),
+                ClKind::Intersect => acc.inc(C::NuObsIntersect),
+                ClKind::None => {}
+            }
+            if obs_kind != exact {
+                let s = cl_obs_string(&res);
+                *acc.nu_fails.entry(bucket("kind")).or_insert(0) += 1;
+                acc.fail("nu_cl_kind", key, || Violation::new(format!("nu_cl_kind:{}", k.sig()), format!("intersect_cl kind on a nearly normalised line: {}: exact class {:?}, library returned {s} (Line::dist of the centre = {:?})", what(), exact, catch(|| line.dist(&fc))), k.replay("nu_cl_kind")));
+            }
+            let offs: Vec<f64> = pts.iter().flat_map(|x| [off_circle(x, &fc, rp), off_exact(x)]).collect();
+            let apart = if pts.len() == 2 { d2(pts[0].x, pts[0].y, pts[1].x, pts[1].y) } else { f64::INFINITY };
+            let dev = if exact == ClKind::Touch && pts.len() == 1 { d2(pts[0].x, pts[0].y, ft.x, ft.y) } else { 0.0 };
+            if !(offs.iter().all(|w| within(*w)) && apart > TOL && within(dev)) {
+                let s = cl_obs_string(&res);
+                *acc.nu_fails.entry(bucket("points")).or_insert(0) += 1;
+                acc.fail("nu_cl_points", key, || {
+                    Violation::new(format!("nu_cl_points:{}", k.sig()), format!("intersect_cl points on a nearly normalised line: {}: library returned {s}; per point (off circle, off the exact line) = {:?} (tolerance 1e-7), mutual distance {:?}{}", what(), offs, apart, if exact == ClKind::Touch && pts.len() == 1 { format!(", distance from the exact tangent point {} = {:?}", ps(&ft), dev) } else { String::new() }), k.replay("nu_cl_points"))
+                });
+            } else if obs_kind == exact {
+                acc.nu_max_off = offs.iter().fold(acc.nu_max_off, |m, w| m.max(*w));
+            }
+            if exact != ClKind::None && obs_kind == exact && k.line.in_band() && h > 1 && r >= 500 && k.dr.abs() <= 1e-6 && k.c4 != (0, 0) {
+                acc.note(if exact == ClKind::Touch { "nu_tangent_far_from_an_almost_unit_normal" } else { "nu_secant_far_from_an_almost_unit_normal" }, key, || {
+                    json!({"call": "intersect_cl", "constructor": k.line.ctor_text(), "fed_to_constructor": k.line.fed(at), "raw_normal_length": k.line.len_text(), "raw_normal_length_minus_1": k.line.excess(),
+                           "exact_line": format!("{p}(x-{:?})+{q}(y-{:?})=0", fat.x, fat.y), "centre": pj(&fc), "centre_distance_from_line": r, "fed_r": rp, "exact": format!("{:?}", exact), "observed": cl_obs_string(&res), "off_circle_off_exact_line": offs})
+                });
+            }
+        }
+    }
+    if k.dr != 0.0 {
+        return;
+    }
+
+    // ---- the line itself -------------------------------------------------------------------------
+    if let Ok(d) = catch(|| line.dist(&fc)) {
+        let e = (d - r as f64).abs();
+        acc.nu_max_dist_err = if e.is_nan() { f64::INFINITY } else { acc.nu_max_dist_err.max(e) };
+    }
+    let contains = |acc: &mut Acc, x: Point, on: bool, how: String| {
+        if x.x.abs() > COORD_LIMIT || x.y.abs() > COORD_LIMIT {
+            acc.inc(C::SkippedOutOfDomain);
+            return;
+        }
+        acc.inc(if on { C::NuContainsOn } else { C::NuContainsOff });
+        let got = catch(|| line.contains(&x));
+        acc.inc(C::Evals);
+        if got.as_ref().ok() != Some(&on) {
+            *acc.nu_fails.entry(bucket("contains")).or_insert(0) += 1;
+            acc.fail("nu_contains", key, || Violation::new(format!("nu_contains:{}", k.sig()), format!("Line::contains on a nearly normalised line: {}: the point {} is {how}, so on the line = {on}; library returned {got:?} (line a,b,c = {:?},{:?},{:?})", what(), ps(&x), line.a, line.b, line.c), k.replay("nu_contains")));
+        }
+    };
+    for m in [0i64, 1, -9, 64] {
+        let on = Point::new((at.0 + 4 * m * q) as f64 / 4.0, (at.1 - 4 * m * p) as f64 / 4.0);
+        contains(acc, on, true, format!("the hand-over point moved by {m} * ({q},{})", -p));
+        contains(acc, Point::new(on.x + (k.side * p) as f64, on.y + (k.side * q) as f64), false, format!("{h} off the line"));
+        for d in &PERTS[1..] {
+            let near = Point::new(on.x + p as f64 / h as f64 * d, on.y + q as f64 / h as f64 * d);
+            if near.x.abs() <= COORD_LIMIT && near.y.abs() <= COORD_LIMIT {
+                acc.nu_near_gap = acc.nu_near_gap.min(off_exact(&near));
+            }
+            contains(acc, near, false, format!("{:e} off the line", d.abs()));
+        }
+    }
+    // the perpendicular through the hand-over point, an ordinary line (defining points 3 h apart)
+    let beyond = Point::new((at.0 + 12 * p) as f64 / 4.0, (at.1 + 12 * q) as f64 / 4.0);
+    let copy = k.line.build((at.0 + 4 * k.side * p, at.1 + 4 * k.side * q));
+    let mut others: Vec<(&str, Line, bool)> = vec![];
+    if let Ok(perp) = make_line(&fat, &beyond) {
+        acc.inc(C::Evals);
+        others.push(("the perpendicular through the hand-over point", perp, false));
+    }
+    if let Some(Ok(l2)) = copy {
+        acc.inc(C::Evals);
+        others.push(("a copy built the same way one normal vector further", l2, true));
+    }
+    for (name, other, par_exact) in &others {
+        for (which, u, v) in [("(line, other)", &line, other), ("(other, line)", other, &line)] {
+            acc.inc(if *par_exact { C::NuLlParallel } else { C::NuLlPoint });
+            if !*par_exact {
+                acc.inc(C::Nontrivial);
+            }
+            let par = catch(|| util::parallel(u, v));
+            let pt = catch(|| util::intersect_ll(u, v));
+            acc.inc(C::Evals);
+            acc.inc(C::Evals);
+            let dev = match &pt {
+                Ok(Some(x)) => d2(x.x, x.y, fat.x, fat.y),
+                _ => f64::NAN,
+            };
+            let good = par.as_ref().ok() == Some(par_exact) && if *par_exact { matches!(pt, Ok(None)) } else { within(dev) };
+            if !good {
+                *acc.nu_fails.entry(bucket("ll")).or_insert(0) += 1;
+                acc.fail("nu_ll", key, || {
+                    Violation::new(format!("nu_ll:{}", k.sig()), format!("parallel / intersect_ll{which} with a nearly normalised line: {}; other = {name}: exact answer {}; library returned parallel = {par:?}, intersect_ll = {pt:?} (distance from the exact point {dev:?}, tolerance 1e-7)", what(), if *par_exact { "parallel, no point".to_string() } else { format!("not parallel, the point {}", ps(&fat)) }), k.replay("nu_ll"))
+                });
+            }
+        }
+    }
+}
+
+/// The nearly-normalised-lines family: exponent s ascending, direction (axes first), the integers t next to
+/// 2^s / h (k = h t - 2^s ascending, k = 0 left out), constructor, orientation; per line: centre (origin first),
+/// radius ascending, side, hand-over point, radius change (0 first, then +-delta descending, then +-r/64, +-r/4).
+struct NuFamily {
+    tfi: u64,
+    exps: Vec<u32>,
+    dirs: Vec<(i64, i64, i64)>,
+    centres4: Vec<IP>,
+    /// aimed-at radii; the radius used is the nearest positive multiple of h
+    radii: Vec<i64>,
+    taus: Vec<i64>,
+    deltas: Vec<f64>,
+}
+
+impl NuFamily {
+    fn lines(&self) -> Vec<NuLine> {
+        let mut v = vec![];
+        for &s in &self.exps {
+            for &dir in &self.dirs {
+                let t0 = (1i64 << s) / dir.2;
+                for t in t0 - 1..=t0 + 2 {
+                    for ctor in [NuCtor::New, NuCtor::Between] {
+                        for flip in [false, true] {
+                            let l = NuLine { dir, s, t, ctor, flip };
+                            if l.k() != 0 {
+                                v.push(l);
+                            }
+                        }
+                    }
+                }
+            }
+        }
+        v
+    }
+    fn run(&self) -> Acc {
+        let lines = self.lines();
+        (0..lines.len())
+            .into_par_iter()
+            .map(|li| {
+                let mut acc = Acc::new();
+                let line = lines[li];
+                let h = line.dir.2;
+                let mut rhos: Vec<i64> = self.radii.iter().map(|r| ((*r as f64 / h as f64).round() as i64).max(1)).collect();
+                rhos.dedup();
+                let mut minor = 0u64;
+                for &c4 in &self.centres4 {
+                    for &rho in &rhos {
+                        let r = (h * rho) as f64;
+                        let mut drs = vec![0.0];
+                        drs.extend(self.deltas.iter().chain([r / 64.0, r / 4.0].iter()).flat_map(|d| [*d, -*d]));
+                        for side in [1, -1] {
+                            for &tau in &self.taus {
+                                for &dr in &drs {
+                                    let k = NuCase { line, c4, rho, side, tau, dr };
+                                    if k.well_formed() {
+                                        check_nu(&mut acc, (self.tfi, li as u64, minor), &k);
+                                    }
+                                    minor += 1;
+                                }
+                            }
+                        }
+                    }
+                }
+                acc
+            })
+            .reduce(Acc::new, Acc::merge)
+    }
+}
+
+// ------------------------------------------------------------------------------------------------
 // a lattice under one transform
 // ------------------------------------------------------------------------------------------------
 
@@ -2024,6 +2629,15 @@ fn confirm(v: &Value) -> Result<(), String> {
             None => Ok(()),
         };
     }
+    if v["case"].as_str() == Some("nu") {
+        let k = NuCase::from_json(v).ok_or("replay file does not describe a case of the nearly-normalised-lines family")?;
+        let mut acc = Acc::new();
+        check_nu(&mut acc, (0, 0, 0), &k);
+        return match acc.fails.iter().find(|(f, _)| **f == fam.as_str()) {
+            Some((_, (_, viol))) => Err(viol.summary.clone()),
+            None => Ok(()),
+        };
+    }
     if v["case"].as_str() == Some("cc_eq") {
         let k = EqCase::from_json(v).ok_or("replay file does not describe a case of the nearly-equal-radii family")?;
         let mut acc = Acc::new();
@@ -2216,6 +2830,36 @@ fn main() {
         info
     };
 
+    // nearly normalised lines: raw normal of length 1 + k * 2^-s through both constructors, circles up to the 1e3 box
+    let nuf = NuFamily {
+        tfi: tfs.len() as u64 + 3,
+        exps: args.tier.pick(vec![20, 24, 27, 28, 29, 30, 31, 32, 33, 34, 36, 38], (20..=38).collect()),
+        dirs: ratio.dirs.clone(),
+        centres4: vec![(0, 0), (49, -34), (-603, 806), (1042, -1199)],
+        radii: args.tier.pick(vec![1, 10, 100, 400, 700, 990], vec![1, 3, 10, 30, 100, 200, 400, 550, 700, 850, 990]),
+        taus: vec![0, 3, -40],
+        deltas: ratio.deltas.clone(),
+    };
+    let nu_info = {
+        let t0 = run.elapsed();
+        let acc = nuf.run();
+        let lines = nuf.lines();
+        let fails: BTreeMap<String, u64> = acc.nu_fails.clone();
+        let info = json!({"public_constructors_of_Line": ["Line::new(a, b, c)", "Line::between(&u, &v)"], "each_also_with": "negated coefficients / swapped defining points",
+                          "raw_normal": "(p, q) * t / 2^s for the directions (p, q, h) below and the integers t in [2^s/h - 1, 2^s/h + 2] with h t != 2^s; its length is exactly 1 + (h t - 2^s) / 2^s",
+                          "exponents_s": nuf.exps, "directions": nuf.dirs.iter().map(|d| format!("{}/{},{}/{}", d.0, d.2, d.1, d.2)).collect::<Vec<_>>(),
+                          "line_shapes": lines.len(), "line_shapes_with_raw_normal_length_within_1e-9_of_1": lines.iter().filter(|l| l.in_band()).count(),
+                          "raw_normal_length_minus_1_range": [lines.iter().map(|l| l.excess().abs()).fold(f64::INFINITY, f64::min), lines.iter().map(|l| l.excess().abs()).fold(0.0, f64::max)],
+                          "centres": nuf.centres4.iter().map(|c| [c.0 as f64 / 4.0, c.1 as f64 / 4.0]).collect::<Vec<_>>(), "aimed_at_radii_rounded_to_multiples_of_h": nuf.radii, "hand_over_point_offsets_along_the_line_in_h": nuf.taus,
+                          "radius_changes": {"exact_tangency": 0, "plus_minus_deltas": nuf.deltas, "plus_minus_fractions_of_r": ["1/64", "1/4"]}, "contains_next_to_the_line_offsets": PERTS[1..].to_vec(),
+                          "lines_built": acc.get(C::NuLines), "cases_skipped_reaching_beyond_1e3": acc.get(C::NuSkippedReach), "cases_not_formed_inexact_number": acc.get(C::NuNotRepresentable), "evaluations": acc.get(C::Evals),
+                          "max_abs_coordinate": acc.nu_reach, "min_measured_distance_of_a_next_to_the_line_point": acc.nu_near_gap,
+                          "accepted_answers_max_point_distance_from_circle_or_exact_line": acc.nu_max_off, "max_abs_error_of_Line_dist_at_the_centres_recorded_not_judged": acc.nu_max_dist_err,
+                          "failing_calls_per_check_constructor_length": fails, "seconds": ((run.elapsed() - t0) * 100.0).round() / 100.0});
+        total = total.merge(acc);
+        info
+    };
+
     // ---- evidence -----------------------------------------------------------------------------
     for (i, name) in CNAMES.iter().enumerate() {
         run.cov(name, total.c[i]);
@@ -2223,7 +2867,7 @@ fn main() {
     run.cov("exhaustive", true);
     run.cov(
         "rule",
-        "lattice 1: all integer centres in [-N,N]^2 x radii 1..=R, lines through all ordered pairs of distinct lattice points; circle-line = every circle x every line, circle-circle = every ordered pair of circles (both argument orders called), line-line + parallel = every ordered pair of lines, position = every circle x every lattice point, contains = every line x every lattice point. lattice 2: the same enumeration on [-N2,N2]^2 fed through rotation (3/5,4/5),(5/13,12/13),(8/17,15/17), shift by quarters, integer scale (second line of line-line cases restricted to every ll_second_line_stride-th ordered pair). Classes decided exactly in i128 on the pre-image integers. near-boundary family: EVERY exactly tangent circle-line configuration, EVERY exactly tangent ordered circle pair (inside and outside) and EVERY exact border point met by the above, in every lattice image (radii up to ~480), is fed again with one fed radius changed by each of +-1e-8, +-3e-7, +-1e-5; the sign of the change decides the class (secant/miss, crossing/separated/nested, inside/outside), the configuration is |change| away from the boundary; demanded: the kind, every returned point on both primitives within 1e-7, two returned points distinct. skew plane: coordinates in units of 2^-19; every axis-parallel line spanning the scaled lattice box with its second defining point nudged sideways by +-2^-e, both orientations, against every ordinary lattice line in both argument orders and against every skew line (parallel / crossing decided in i128; returned point on both lines within 1e-7 when the exact point is within 1e3), and contains() of all lattice points, the defining points and the un-nudged endpoint. distinct_nontrivial = enumerated configurations (each a distinct input) whose exact class is a contact: circle-line Touch/Intersect, circle-circle Same/TouchInside/TouchOutside/Intersect, non-parallel line pairs, near-boundary secants and crossing circle pairs. extreme radius ratios: every (R, r, delta, centre, direction) of the lists under ratio_family, the smaller circle's centre at distance R+r-delta, R-r+delta (crossing: kind Intersect demanded), R+r+delta, R-r-delta (separated / nested: kind None demanded) from the larger one's along the direction, both argument orders; delta >= 1e-8 = 10x the library tolerance decides the class by its sign; demanded as in the near-boundary family: kind, every returned point on both circles within 1e-7, two returned points distinct. nearly equal radii / nearly concentric: with g = 65*2^-k, every (k, ra, centre, direction/65) of the lists under eq_family (radii and centres are generic 53-bit numbers, every fed number an exact multiple of 2^-43): rb = ra-g with b's centre exactly g from a's along the direction (exact internal tangency: TouchInside demanded) and g+delta / g-delta for every listed delta <= g/2 (crossing: Intersect / nested: None, decided in i128 from the fed numbers), and centre distance exactly g with rb = ra, ra-g/2 (crossing) and ra-2g, ra-8g (nested); pairs with rb < ra/2 are not formed; both argument orders; demanded: kind, every returned point on both circles within 1e-7, two returned points distinct",
+        "lattice 1: all integer centres in [-N,N]^2 x radii 1..=R, lines through all ordered pairs of distinct lattice points; circle-line = every circle x every line, circle-circle = every ordered pair of circles (both argument orders called), line-line + parallel = every ordered pair of lines, position = every circle x every lattice point, contains = every line x every lattice point. lattice 2: the same enumeration on [-N2,N2]^2 fed through rotation (3/5,4/5),(5/13,12/13),(8/17,15/17), shift by quarters, integer scale (second line of line-line cases restricted to every ll_second_line_stride-th ordered pair). Classes decided exactly in i128 on the pre-image integers. near-boundary family: EVERY exactly tangent circle-line configuration, EVERY exactly tangent ordered circle pair (inside and outside) and EVERY exact border point met by the above, in every lattice image (radii up to ~480), is fed again with one fed radius changed by each of +-1e-8, +-3e-7, +-1e-5; the sign of the change decides the class (secant/miss, crossing/separated/nested, inside/outside), the configuration is |change| away from the boundary; demanded: the kind, every returned point on both primitives within 1e-7, two returned points distinct. skew plane: coordinates in units of 2^-19; every axis-parallel line spanning the scaled lattice box with its second defining point nudged sideways by +-2^-e, both orientations, against every ordinary lattice line in both argument orders and against every skew line (parallel / crossing decided in i128; returned point on both lines within 1e-7 when the exact point is within 1e3), and contains() of all lattice points, the defining points and the un-nudged endpoint. distinct_nontrivial = enumerated configurations (each a distinct input) whose exact class is a contact: circle-line Touch/Intersect, circle-circle Same/TouchInside/TouchOutside/Intersect, non-parallel line pairs, near-boundary secants and crossing circle pairs. extreme radius ratios: every (R, r, delta, centre, direction) of the lists under ratio_family, the smaller circle's centre at distance R+r-delta, R-r+delta (crossing: kind Intersect demanded), R+r+delta, R-r-delta (separated / nested: kind None demanded) from the larger one's along the direction, both argument orders; delta >= 1e-8 = 10x the library tolerance decides the class by its sign; demanded as in the near-boundary family: kind, every returned point on both circles within 1e-7, two returned points distinct. nearly equal radii / nearly concentric: with g = 65*2^-k, every (k, ra, centre, direction/65) of the lists under eq_family (radii and centres are generic 53-bit numbers, every fed number an exact multiple of 2^-43): rb = ra-g with b's centre exactly g from a's along the direction (exact internal tangency: TouchInside demanded) and g+delta / g-delta for every listed delta <= g/2 (crossing: Intersect / nested: None, decided in i128 from the fed numbers), and centre distance exactly g with rb = ra, ra-g/2 (crossing) and ra-2g, ra-8g (nested); pairs with rb < ra/2 are not formed; both argument orders; demanded: kind, every returned point on both circles within 1e-7, two returned points distinct. nearly normalised lines: every line shape of nu_family (both public constructors Line::new and Line::between, both orientations, raw normal (p,q)*t/2^s of exactly known length 1+k*2^-s, |k| < 2h, s around 30, so lengths from 1e-6 down to 4e-12 away from 1 on both sides, every fed number verified to be an exact f64) through every listed hand-over point, against every listed circle placed exactly r = h*rho from the line on either side, with the fed radius r (exact tangency: Touch and the exact tangent point demanded), r+-delta for every delta of the extreme-ratio list and r+-r/64, r+-r/4 (Intersect / None by the sign); demanded: kind, every returned point on the circle and on the EXACT line within 1e-7, two returned points distinct; per line also contains() of exact points of the line (true), of points 1e-8..1e-5 next to it and h off it (false), and parallel / intersect_ll in both argument orders with the perpendicular through the hand-over point (that point within 1e-7) and with a parallel copy (parallel, no point). iterator protocol: EVERY result of intersect_cl / intersect_cc judged by any family (iter_results_put_through_the_iterator_protocol of them; none / one / two points counted separately) is consumed through its IntoIterator impl in every std way - for loop, next + size_hint, collect, extend, partition, count, last, nth(k) + rest, fold, for_each, reduce, find, position, all, any, max_by, min_by, skip(k), take(k), step_by, chain, zip, enumerate, peekable, fuse, filter + map, by_ref().take; with DoubleEndedIterator: next_back + size_hint, rev, rfold, rfind, nth_back(k) + rest, rev().nth/last/count/fold, j x next then alternating next_back / next in both phases; with ExactSizeIterator: len between calls, rposition; FusedIterator: None stays None; Clone: original and clone from every position, cycle; by reference if &T: IntoIterator (which of these groups the library's iterator type offers is detected at compile time, iter_ways_run_* count them); every way is run on every result of lattice 1, of the near-boundary companions, of the extreme-ratio and nearly-equal-radii families and on EVERY one-point result anywhere; the no-point and two-point results of the lattice-1 images under lattice 2 and of the nearly-normalised-lines family get the methods an iterator type implements itself (for loop, next + size_hint, count, last, nth(k) + rest, fold, next_back + size_hint, nth_back(k) + rest, rfold, mixed-end pulling, len) - and the points handed out must be the variant's points (draining ways: as a multiset; picking ways: a point of the variant, Some exactly when enough points exist; counting ways: their number; size_hint: lower <= left <= upper)",
     );
     run.cov("lattice1", json!({"half_width": n1, "max_radius": r1}));
     run.cov("lattice2", json!({"half_width": n2, "max_radius": r2, "rotations": ["3/5,4/5", "5/13,12/13", "8/17,15/17"], "shifts_in_quarters": shifts, "scales": scale_notes}));
@@ -2232,6 +2876,7 @@ fn main() {
     run.cov("skew_plane", skew_info);
     run.cov("ratio_family", ratio_info);
     run.cov("eq_family", eq_info);
+    run.cov("nu_family", nu_info);
     run.cov(
         "skew_plane_min_nonzero_boundary_gap",
         json!({"parallel_sine": total.gap_skew_parallel, "contains_abs": total.gap_skew_contains, "note": "exact, from the integer coordinates; library EPS = 1e-9, required > 2e-9"}),
@@ -2251,6 +2896,8 @@ fn main() {
     run.assume("near-boundary family: the tangent configuration is fed with rounding of ~1e-13 (lattice 1: none), so after a radius change of magnitude >= 1e-8 the fed configuration is that far (+-1e-12) from the boundary and on the side given by the sign of the change; the property excludes only configurations within 1e-9 (position: within 1e-9 of the radius, relatively - such changes are skipped and counted)");
     run.assume("extreme-radius-ratio family: radii and the larger circle's centre are dyadic (exact); the smaller circle's centre is computed in f64 (direction cosines p/h, q/h, one multiplication and one addition per coordinate), so the fed centre distance differs from the intended R+-r+-delta by rounding of ~1e-13; the engine measures it (min_measured_distance_from_tangency) and refuses to run if it disagrees with the intended delta by more than 0.1 %, so every fed pair is >= 0.999e-8 from the tangency boundary on the side given by the sign of delta; all points of all circles have |coordinate| <= 1e3 (checked)");
     run.assume("nearly-equal-radii family: centres, radii and centre offsets are integers in units of 2^-43 below 2^53, so each f64 handed to the library is exactly that number (converted back and compared for every pair); tangent / crossing / nested is decided by comparing the squared centre distance with (ra-rb)^2 in i128 on those integers, and the distance from tangency is computed from the same integers: 0 for the tangent pairs (offset = direction * 2^-k exactly), otherwise >= 0.999e-8 = 10x the library tolerance and within 0.1 % of the intended g(1-th/2)+-delta (the engine refuses to run otherwise); all points of both circles have |coordinate| <= 1e3 (other pairs are skipped and counted); for two almost coincident circles the position of a point ALONG them is not determined to 1e-7 by the data and is not compared");
+    run.assume("nearly-normalised-lines family: coefficients / defining points are dyadic rationals n/2^(s+2) whose integer numerators are checked to convert to f64 and back without change (members with an inexact number are not formed and counted), so the fed line IS p(x-x1)+q(y-y1)=0 and the raw normal's length IS 1+k/2^s; the circle's centre (quarters) is exactly r = h*rho from that line (asserted in integers); the fed radius r+dr is formed in f64 and dr re-measured exactly, |dr| >= 1e-8 = 10x the library tolerance decides the class by its sign; distances of returned points from the line are measured against the exact line, never the library's coefficients; points 'next to the line' are computed in f64 and their distance from the exact line is re-measured (min_measured_distance_of_a_next_to_the_line_point, required > 2e-9); all points of all circles and all defining points have |coordinate| <= 1e3 (other members are skipped and counted); the value of Line::dist is recorded but not judged (the property speaks of point-on-line tests, i.e. contains)");
+    run.assume("iterator protocol: the order in which a result hands out its two points is not part of the property and is not demanded; CircleLineIntersection is not Clone, so an equal value is put together from its public variants for each way of consuming (CircleIntersection is Copy)");
     run.assume("near-boundary and skew families demand what the property states of a returned point (on both primitives within 1e-7) and not its position along two almost coincident directions, which the data do not determine to 1e-7");
     run.assume("the 1e-7 accuracy clause is applied only where all coordinates involved are <= 1e3 (line-line intersection points beyond that are counted in skipped_out_of_domain; their kind is still checked)");
 
@@ -2287,6 +2934,12 @@ fn main() {
     if !(total.eq_reach <= COORD_LIMIT) {
         run.machinery_failure(&format!("nearly-equal-radii family: a fed circle reaches |coordinate| {:?} > 1e3", total.eq_reach));
     }
+    if !(total.nu_reach <= COORD_LIMIT) || !(total.nu_near_gap > NEAR_FLOOR) {
+        run.machinery_failure(&format!("nearly-normalised-lines family: a fed object reaches |coordinate| {:?} > 1e3, or a point 'next to the line' is only {:?} from it", total.nu_reach, total.nu_near_gap));
+    }
+    if total.get(C::IterResults) == 0 || total.get(C::IterWaysForward) < 8 * total.get(C::IterResultsAgreed) {
+        run.machinery_failure("non-vacuity: the iterator protocol ran fewer than 8 ways of consuming per judged result");
+    }
     if !PERTS[1..].iter().all(|d| d.abs() > NEAR_FLOOR) {
         run.machinery_failure("a near-boundary radius change is inside the excluded tolerance band");
     }
@@ -2309,6 +2962,19 @@ fn main() {
         (C::EqCcNoneInside, "nested nearly equal circles"),
         (C::EqCcNoneInsideConcentric, "nested nearly concentric circles"),
         (C::EqObsTouchInside, "TouchInside answers for nearly equal circles"),
+        (C::IterOnePoint, "one-point results put through the iterator protocol"),
+        (C::IterTwoPoints, "two-point results put through the iterator protocol"),
+        (C::IterNoPoint, "empty results put through the iterator protocol"),
+        (C::NuLinesInBand, "lines whose raw normal length is within 1e-9 of 1"),
+        (C::NuClTouch, "exact tangencies with nearly normalised lines"),
+        (C::NuClTouchFarInBand, "exact tangencies 500 or more away from a line whose raw normal length is within 1e-9 of 1"),
+        (C::NuClIntersect, "secants among the nearly normalised lines"),
+        (C::NuClNone, "misses among the nearly normalised lines"),
+        (C::NuObsTouch, "Touch answers for nearly normalised lines"),
+        (C::NuContainsOn, "points on nearly normalised lines"),
+        (C::NuContainsOff, "points off nearly normalised lines"),
+        (C::NuLlPoint, "crossings with nearly normalised lines"),
+        (C::NuLlParallel, "parallel copies of nearly normalised lines"),
         (C::SkewLlParallel, "parallel pairs in the skew plane"),
         (C::SkewLlPointChecked, "skew-plane crossings within 1e3"),
         (C::SkewLlSteepFirst, "skew-plane crossings whose first line has a minor coefficient below 1e-6"),
